@@ -19,6 +19,7 @@ type Tok struct {
 	// the expression that ends with this token cannot be called, indexed or tagged (a postfix update, an arrow function
 	// with a block body): a ( [ or template on the next line starts a new statement
 	EndsUncallable bool
+	AfterDoWhile   bool // the terminator of a do-while statement: may be left out anywhere
 	NeedLT         bool // a line terminator must stand in front of this token
 	EndsClosed     bool // ends an expression that no binary operator can continue (an arrow function with a block body, a bare yield): + - and a regular expression on the next line start a new statement
 }
@@ -82,9 +83,11 @@ type G struct {
 	inSwitch   int
 	noIn       bool
 	labels     []string
-	forcePlain bool // the next function is neither async nor a generator
-	wantLex    bool // the next statement is the first of a loop or conditional body block
-	forceGen   bool // the next method is a plain generator method (no static, async, get, set)
+	forcePlain bool       // the next function is neither async nor a generator
+	wantLex    bool       // the next statement is the first of a loop or conditional body block
+	fnScopes   []*fnScope // the function-level scopes that are open (bodies of functions, methods, static blocks; the top level of a script)
+	lastFunc   string     // the name the last function declaration or expression got
+	forceGen   bool       // the next method is a plain generator method (no static, async, get, set)
 	nameSeq    int
 	Declared   []string // names declared so far (unique, so that no redeclaration error can arise)
 	Module     bool     // import/export declarations allowed at top level
@@ -771,6 +774,12 @@ type fnCtx struct {
 	labels                         []string
 }
 
+// fnScope: a function-level scope: var and function declarations of one name may stand side by side in it
+type fnScope struct {
+	lexDepth int      // len(lexScopes) of its statement list
+	funcs    []string // names of the function declarations directly in that list
+}
+
 func (g *G) enterFunc(gen, async bool) fnCtx {
 	// (inArrowParams deliberately stays set inside nested functions of a parameter default: the parser's speculative
 	// arrow-head parse covers the whole parenthesised text)
@@ -794,11 +803,13 @@ func (g *G) body() Out {
 		n = 0
 	}
 	g.lexScopes = append(g.lexScopes, nil)
+	g.fnScopes = append(g.fnScopes, &fnScope{lexDepth: len(g.lexScopes)})
 	for i := 0; i < n; i++ {
 		s := g.Stmt()
 		toks = append(toks, s.Toks...)
 		sb.WriteString(" " + s.Str)
 	}
+	g.fnScopes = g.fnScopes[:len(g.fnScopes)-1]
 	g.retired = append(g.retired, g.lexScopes[len(g.lexScopes)-1]...)
 	g.lexScopes = g.lexScopes[:len(g.lexScopes)-1]
 	return Out{append(toks, Tok{S: "}"}), sb.String() + " })"}
@@ -824,8 +835,10 @@ func (g *G) function(expr bool) Out {
 		toks = append(toks, Tok{S: "*"})
 		s += "*"
 	}
+	g.lastFunc = ""
 	if !expr || g.chance("named", 2) {
 		n := g.newName()
+		g.lastFunc = n
 		toks = append(toks, Tok{S: n})
 		s += " " + n
 	}
@@ -1217,7 +1230,11 @@ func (g *G) Stmt() Out {
 				// enclosing scope (valid, but rejected) nor of the same block (invalid, but accepted)
 				g.Excluded["K-C03-1"]++
 			}
-			return g.function(false)
+			f := g.function(false)
+			if k := len(g.fnScopes); k > 0 && g.fnScopes[k-1].lexDepth == len(g.lexScopes) && g.lastFunc != "" {
+				g.fnScopes[k-1].funcs = append(g.fnScopes[k-1].funcs, g.lastFunc)
+			}
+			return f
 		case 2:
 			g.Kinds["classdecl"]++
 			return g.class(false)
@@ -1264,6 +1281,11 @@ func (g *G) subStmtL(inList bool) Out {
 	switch k {
 	case 0:
 		g.Kinds["var"]++
+		if k := len(g.fnScopes); k > 0 && len(g.fnScopes[k-1].funcs) > 0 && g.chance("varfunc", 3) {
+			// a var of the name of a function declaration of the same function-level scope (legal there, in either order)
+			g.forceName = g.fnScopes[k-1].funcs[g.intn("varfuncname", len(g.fnScopes[k-1].funcs))]
+			g.Kinds["var-named-like-function"]++
+		}
 		d := g.varDecl("var", false, true)
 		return Out{cat(d.Toks, semi()), d.Str}
 	case 1:
@@ -1306,7 +1328,8 @@ func (g *G) subStmtL(inList bool) Out {
 		b := g.SubStmt()
 		g.inLoop--
 		c := g.parenExpr()
-		return Out{cat(tk("do"), b.Toks, tk("while"), c.Toks, semi()), "Stmt(do " + b.Str + " while " + c.Str + ")"}
+		// the semicolon behind the ) of do-while is always inserted, on the same line too, whatever follows
+		return Out{cat(tk("do"), b.Toks, tk("while"), c.Toks, []Tok{{S: ";", Semi: true, AfterDoWhile: true}}), "Stmt(do " + b.Str + " while " + c.Str + ")"}
 	case 6:
 		g.Kinds["for"]++
 		toks := tk("for", "(")
@@ -1606,6 +1629,11 @@ func (g *G) Program() Out {
 	// the top level is a scope like any other: its let/const names can be shadowed further in and re-use retired names
 	g.lexScopes = append(g.lexScopes, nil)
 	defer func() { g.lexScopes = g.lexScopes[:len(g.lexScopes)-1] }()
+	if !g.Module {
+		// the top level of a script (or of an inline handler, which is a function body) is a function-level scope
+		g.fnScopes = append(g.fnScopes, &fnScope{lexDepth: len(g.lexScopes)})
+		defer func() { g.fnScopes = g.fnScopes[:len(g.fnScopes)-1] }()
+	}
 	for i := 0; i < n; i++ {
 		var s Out
 		if g.Module {
